@@ -623,6 +623,61 @@ def fam_unknown_template(rng, n):
     return out
 
 
+def fam_boundaries(rng):
+    """explicit cases on both sides of every constant the hand-modelled control logic compares with
+    (set/flowset ids around 0,1,2,3,255,256; lengths around 4 and 16; scope lengths not multiples of 4;
+    enterprise bit boundary 32767/32768; variable-length prefix 254/255; duration seconds around 2^32)"""
+    out = []
+    def v9hdr(count):
+        return (9).to_bytes(2, "big") + count.to_bytes(2, "big") + bytes(16)
+    def iphdr(total):
+        return (10).to_bytes(2, "big") + total.to_bytes(2, "big") + bytes(12)
+    tmpl_body = (256).to_bytes(2, "big") + (1).to_bytes(2, "big") + (1).to_bytes(2, "big") + (4).to_bytes(2, "big")
+    # flowset / set ids at the boundaries, with a template-shaped body, then a data set for id 256
+    for sid in (0, 1, 2, 3, 4, 100, 254, 255, 256, 257):
+        fs = sid.to_bytes(2, "big") + (4 + len(tmpl_body)).to_bytes(2, "big") + tmpl_body
+        data = (256).to_bytes(2, "big") + (8).to_bytes(2, "big") + bytes([0, 0, 0, 7])
+        out.append(("boundary-v9-flowset-id", [op_new(0), op_parse(0, hexs=hx(v9hdr(1) + fs)), op_parse(0, hexs=hx(v9hdr(1) + data))]))
+        out.append(("boundary-ipfix-set-id", [op_new(0), op_parse(0, hexs=hx(iphdr(16 + len(fs)) + fs)), op_parse(0, hexs=hx(iphdr(16 + 8) + data))]))
+    # flowset / set / message lengths around their minimum
+    for ln in (0, 1, 2, 3, 4, 5):
+        fs = (0).to_bytes(2, "big") + ln.to_bytes(2, "big") + tmpl_body
+        out.append(("boundary-v9-flowset-len", [op_new(0), op_parse(0, hexs=hx(v9hdr(2) + fs))]))
+        st = (2).to_bytes(2, "big") + ln.to_bytes(2, "big") + tmpl_body
+        out.append(("boundary-ipfix-set-len", [op_new(0), op_parse(0, hexs=hx(iphdr(16 + len(st)) + st))]))
+    for total in (0, 1, 15, 16, 17, 19, 20):
+        st = (2).to_bytes(2, "big") + (4 + len(tmpl_body)).to_bytes(2, "big") + tmpl_body
+        out.append(("boundary-ipfix-msg-len", [op_new(0), op_parse(0, hexs=hx(iphdr(total) + st + (5).to_bytes(2, "big") + bytes(22)))]))
+    # V9 options template whose scope / option lengths are not multiples of 4, then options data
+    for sl, ol in ((4, 4), (5, 4), (6, 7), (3, 8), (0, 4), (4, 0), (7, 1)):
+        body = (300).to_bytes(2, "big") + sl.to_bytes(2, "big") + ol.to_bytes(2, "big") + b"".join((1).to_bytes(2, "big") + (2).to_bytes(2, "big") for _ in range(sl // 4)) + b"".join((8).to_bytes(2, "big") + (4).to_bytes(2, "big") for _ in range(ol // 4))
+        body += bytes(rng.choice([0, 1, 2, 3]))
+        fs = (1).to_bytes(2, "big") + (4 + len(body)).to_bytes(2, "big") + body
+        data = (300).to_bytes(2, "big") + (4 + 8).to_bytes(2, "big") + bytes(range(8))
+        out.append(("boundary-v9-scope-len", [op_new(0), op_parse(0, hexs=hx(v9hdr(1) + fs)), op_parse(0, hexs=hx(v9hdr(1) + data))]))
+    # IPFIX enterprise-bit boundary: field numbers 32767 / 32768 / 65535, with and without room for the PEN
+    for num, extra in ((32767, b""), (32768, (9).to_bytes(4, "big")), (32768, b""), (65535, (1).to_bytes(4, "big")), (32769, b"\x00\x00")):
+        body = (256).to_bytes(2, "big") + (1).to_bytes(2, "big") + num.to_bytes(2, "big") + (2).to_bytes(2, "big") + extra
+        st = (2).to_bytes(2, "big") + (4 + len(body)).to_bytes(2, "big") + body
+        data = (256).to_bytes(2, "big") + (4 + 4).to_bytes(2, "big") + bytes([1, 2, 3, 4])
+        out.append(("boundary-ipfix-enterprise-bit", [op_new(0), op_parse(0, hexs=hx(iphdr(16 + len(st)) + st)), op_parse(0, hexs=hx(iphdr(16 + 8) + data))]))
+    # variable-length prefix 254 / 255 (long form) / 255 with a short length
+    vt = {"id": 256, "fields": [{"typ": IP_BY_TY["str"][0], "len": 65535, "ent": None}]}
+    tm = {"ipfix": {"m": {"exportTime": 1, "seq": 1, "odid": 1, "sets": [{"templates": {"ts": [vt], "pad": ""}}]}}}
+    for n, form in ((254, "short"), (255, "long"), (256, "long"), (3, "long"), (0, "short"), (0, "long")):
+        dm = {"ipfix": {"m": {"exportTime": 2, "seq": 2, "odid": 1, "sets": [{"data": {"id": 256, "recs": [[{"content": "61" * n, "form": form}]], "pad": ""}}]}}}
+        out.append(("boundary-ipfix-varlen-prefix", [op_new(0), op_parse(0, msgs=[tm]), op_parse(0, msgs=[dm])]))
+    # 8-byte duration in seconds around 2^32 (the exporter fails above)
+    durs = IP_BY_TY.get("durS", [])
+    if durs:
+        dt = {"id": 256, "fields": [{"typ": durs[0], "len": 8, "ent": None}]}
+        tm2 = {"ipfix": {"m": {"exportTime": 1, "seq": 1, "odid": 1, "sets": [{"templates": {"ts": [dt], "pad": ""}}]}}}
+        for v in (2 ** 32 - 1, 2 ** 32, 2 ** 32 + 1, 2 ** 64 - 1, 0):
+            dm = {"ipfix": {"m": {"exportTime": 2, "seq": 2, "odid": 1, "sets": [{"data": {"id": 256, "recs": [[{"content": hx(v.to_bytes(8, "big")), "form": "fixed"}]], "pad": ""}}]}}}
+            out.append(("boundary-duration-2^32", [op_new(0), op_parse(0, msgs=[tm2]), op_parse(0, msgs=[dm])]))
+    return out
+
+
 def fam_widths(rng, proto, sample=None):
     """every library type crossed with every declared width 0..20 (and IPFIX variable length): supported widths
     carry the abstract messages (spec oracle), unsupported ones are raw behaviour compared with the model only"""
